@@ -140,6 +140,15 @@ func c14B1t6(c *Ctx) {
 				}
 			}
 		}
+		if !stored {
+			// the output built by appending the decoded byte of every accepted group (dst = append(dst, b))
+			for _, ci := range ana.CallsTo(fn, "builtin.append") {
+				t := b.CallTermAt(ci)
+				if w, _ := ana.Find("store(iaddr(self, 0), ext#0("+grp+"))", t); w != nil && t.Op == "concat" && len(t.Args) == 2 {
+					stored = mustPass(fn, ci.Block(), okE)
+				}
+			}
+		}
 		r.Check(stored, key+".store", c.P.Pos(fn.Pos()), "dst[i] = decoded byte for every accepted group, i advancing by one")
 	}
 	// encoders
@@ -177,7 +186,10 @@ func c14B1t6(c *Ctx) {
 			r.Check(p1 && p2, "C14.variants-agree.encode-layout", c.P.Pos(f.Pos()), "byte i → trits [6i,6i+3) = first tryte value, [6i+3,6i+6) = second (little-endian tryte order)")
 			for _, e := range ana.Exits(f.Function) {
 				if !e.Panic {
-					r.Check(b.Of(e.Results[0], e.Instr).String() == "ind<+6>(0)", "C14.variants-agree.encode-count", c.ipos(e.Instr), "Encode returns 6·len(src)")
+					ct := b.Of(e.Results[0], e.Instr)
+					// the running offset after the loop over src, or the product computed directly (EncodedLen is looked through)
+					_, prod := ana.MatchX(c.P, "bin<*>(len(p1), 6)", ct)
+					r.Check(ct.String() == "ind<+6>(0)" || prod, "C14.variants-agree.encode-count", c.ipos(e.Instr), "Encode returns 6·len(src)")
 				}
 			}
 		}
